@@ -810,6 +810,23 @@ def run(ctx):
                                          int(r.integers(0, 1 << 30)), md))
                 with ctx.guard(60):
                     sur_case(ctx, S, cid, r, cls, N, n, ops)
+    # 1b. long records (more samples than a 16 bit rank / index can count):
+    #     the non-twin methods (twins need an n x n matrix)
+    longs = [32769, 40000, 70001, 65537] if ctx.thorough else [32769, 40001]
+    for j, n in enumerate(longs):
+        if not ctx.mine(j):
+            continue
+        cid = f"long:{n}"
+        if not ctx.want(cid):
+            continue
+        r = ctx.rng("long", n)
+        ops = [("white",), ("corr",), ("aaft",),
+               ("raaft", 1, "true_amplitudes"), ("raaft", 2, "both"),
+               ("corr",)]
+        ctx.count("long_records")
+        with ctx.guard(300):
+            sur_case(ctx, S, cid, r, "normal" if "normal" in CLASSES
+                     else CLASSES[0], 2, n, ops)
     # 2. random histories
     cap = 12000 if ctx.thorough else 3200
     nmax = 1000 if ctx.thorough else 200
